@@ -97,7 +97,44 @@ def run(ctx):
         cs = {callee_name(t) for _, t in fn.calls()}
         if "http::HTTP::version_list" in cs and ("request::Request::method_list" in cs or (mtables and items_mentioned(F, fn) & set(mtables))):
             rl = fn
+    literal_done = False
     if rl is None:
+        # the membership tests written against literals (`matches!(method, "GET" | "HEAD" | ..)`): the strings the parser compares with
+        # must be exactly the Method and Version entries - one missing or misspelt entry refuses requests the serialiser writes
+        cand = F.fns.get("request::Request::parse_method_and_request_uri_and_http_version_string")
+        if cand is not None:
+            ci = ctx.inl(cand)
+            cdu = du_of(ci)
+            compared = set()
+            for _, t_ in ci.calls():
+                cn_ = callee_name(t_) or ""
+                if ("PartialEq" in cn_ or cn_.endswith("impl str>::eq")) and cn_.endswith(("::eq", "::ne")) and len(t_["args"]) == 2:
+                    for a_ in t_["args"]:
+                        v_ = cdu.val_operand(a_)
+                        for _i in range(3):
+                            if v_[0] in ("ref", "place"):
+                                w_ = cdu.val_place((v_[1][0], ()))
+                                if w_ != v_ and w_[0] != "place":
+                                    v_ = w_
+                        if v_[0] == "const" and isinstance(v_[1], str):
+                            compared.add(v_[1])
+            mvals = {v for v in (((F.consts.get("request::METHOD") or {}).get("v") or {}).get("fields") or {}).values() if isinstance(v, str)}
+            vvals = {v for v in (((F.consts.get("http::VERSION") or {}).get("v") or {}).get("fields") or {}).values() if isinstance(v, str)}
+            if mvals and vvals and len(compared & (mvals | vvals)) >= 6:
+                literal_done = True
+                missing = sorted((mvals | vvals) - compared)
+                unknown = sorted(x for x in compared - mvals - vvals if x.upper().startswith("HTTP/") or x.isalpha() and x.isupper())
+                ok = not missing and not unknown
+                r1.instance({"fn": cand.def_, "form": "literal comparisons", "compared_with": sorted(compared), "entries_not_compared": missing, "literals_that_are_no_entry": unknown}, ok)
+                r1.note("%s tests the method and the version against literals: the set of literals is checked against the Method / Version entries; that the tests dominate the Ok return is not decided for this form" % cand.def_)
+                r1.floor = min(r1.floor, 1)
+                for x in missing:
+                    r1.violate("C14|R1|%s|literal-missing|%s" % (cand.def_, x), "%s compares the request line with literals and has none for %r, an entry of the Method / Version list: a request the serialiser writes with it is refused" % (cand.def_, x), cand.file, cand.span["line"], cand.def_)
+                for x in unknown:
+                    r1.violate("C14|R1|%s|literal-unknown|%s" % (cand.def_, x), "%s accepts the literal %r, which is no entry of the Method / Version list" % (cand.def_, x), cand.file, cand.span["line"], cand.def_)
+    if rl is None and literal_done:
+        pass
+    elif rl is None:
         r1.violate("C14|R1|anchor-missing", "the request-line parser (caller of Request::method_list and HTTP::version_list) was not found")
     else:
         du = du_of(rl)
